@@ -141,6 +141,7 @@ func (f *Frame) underRecover() bool {
 type Event struct {
 	Name string
 	Args []Val
+	Ret  Val
 }
 
 type State struct {
@@ -249,6 +250,7 @@ type Run struct {
 	curProps []string
 	stepN    int
 	pureDepth int
+	curCon   *Contract
 }
 
 func (x *Run) unsupported(what string, pos token.Pos) {
